@@ -36,6 +36,9 @@ Ops == {<<"with_package_type", t>> : t \in TypesU}
        \cup {<<"without_qualifier", k>> : k \in KeyU \cup {CHECKSUM}} \cup {<<"without_qualifiers">>}
        \cup {<<"with_typed_repo", v>> : v \in ValU} \cup {<<"without_typed_repo">>}
        \cup {<<"try_with_typed_checksum", c>> : c \in CkTypedU} \cup {<<"without_typed_checksum">>}
+       \* direct edits of the public fields
+       \cup {<<"edit_name", s>> : s \in NameU} \cup {<<"edit_ns", s>> : s \in NsU}
+       \cup {<<"edit_qual", k, v>> : k \in KeyU, v \in ValU}
 
 VARIABLES b, pc, last, out, hist
 vars == <<b, pc, last, out, hist>>
